@@ -797,7 +797,13 @@ func RunC02(e *Env) (int, error) {
 			return runC02EntryOnce(e, pool, run)
 		}
 		r := gen.New(e.Seed, "C02", run)
-		c := genC02(r, maxLayers)
+		var c *C02Case
+		if run%25 == 7 {
+			c = genC02SharedLists(r) // a hand-shaped family in one run of 25
+			ev.Count("shaped.shared_scalar_lists", 1)
+		} else {
+			c = genC02(r, maxLayers)
+		}
 		o, res, err := exec(c, run, "run")
 		if err != nil {
 			return harness.RunResult{Err: err}
@@ -903,4 +909,87 @@ func init() {
 		}
 		return o.Clause, o, nil
 	}
+}
+
+// genC02SharedLists is a hand-shaped family: one layer hands the *same*
+// scalar-only list (of a length that leaves spare capacity in a slice grown
+// by append: 3, 5, 6, 7 — and, as controls, 1, 2, 4, 8) to every target, by
+// a route on which the patch's value may land by reference ($replace: true
+// on the enclosing map or on the list, over a null / a scalar / nothing),
+// and the following layers append a *different* value to that list in each
+// target, one $match document per target. Documents that share the list's
+// backing array then overwrite one another's appended element.
+func genC02SharedLists(r *gen.Rand) *C02Case {
+	c := &C02Case{}
+	c.Sched = wire.Sched{Mode: "Hash", Seed: r.U64() >> 1, Coin: gen.PickAny(r, []float64{0, 0.5, 1})}
+	c.FileRoute = r.Chance(0.5)
+	add := func(op wire.Op, layer int) {
+		c.Ops = append(c.Ops, op)
+		c.Chain = append(c.Chain, 0)
+		c.Layer = append(c.Layer, layer)
+	}
+	nBase := r.Range(2, 4)
+	route := r.Intn(5)
+	var prev []string
+	for i := 0; i < nBase; i++ {
+		doc := map[string]any{"name": fmt.Sprintf("n%d", i), "kind": gen.PickAny(r, c02Kinds)}
+		switch route {
+		case 0: // replaced as a whole below
+			doc["cfg"] = map[string]any{"tags": []any{fmt.Sprintf("old%d", i)}, "keep": i}
+		case 1: // a null to be overridden
+			doc["cfg"] = map[string]any{"tags": nil}
+		case 2: // a scalar to be overridden
+			doc["cfg"] = map[string]any{"tags": "none"}
+		case 3: // nothing there yet
+		default: // a list replaced by a list carrying "$replace"
+			doc["cfg"] = map[string]any{"tags": []any{"a", "b"}}
+		}
+		id := fmt.Sprintf("L0|doc%d", i)
+		add(wire.Op{Op: "MergeDocument", ID: id, Data: &wire.Tree{V: doc}}, 0)
+		prev = append(prev, id)
+	}
+	n := gen.PickAny(r, []int{3, 3, 5, 6, 7, 1, 2, 4, 8})
+	list := make([]any, 0, n+1)
+	for k := 0; k < n; k++ {
+		if r.Chance(0.3) {
+			list = append(list, k)
+		} else {
+			list = append(list, fmt.Sprintf("t%d", k))
+		}
+	}
+	var fan map[string]any
+	switch route {
+	case 0:
+		fan = map[string]any{"cfg": map[string]any{"$replace": true, "tags": list}}
+	case 4:
+		fan = map[string]any{"cfg": map[string]any{"tags": append(append([]any{}, list...), "$replace")}}
+	default:
+		fan = map[string]any{"cfg": map[string]any{"tags": list}}
+	}
+	add(wire.Op{Op: "MergeDocument", ID: "L1|doc0", Parents: append([]string{}, prev...), Data: &wire.Tree{V: fan}}, 1)
+	prev = []string{"L1|doc0"}
+	nLayers := 1 + r.Range(1, 2)
+	for l := 2; l <= nLayers; l++ {
+		var ids []string
+		order := make([]int, nBase)
+		for i := range order {
+			order[i] = i
+		}
+		gen.Shuffle(r, order)
+		for d, i := range order {
+			if d > 0 && r.Chance(0.15) {
+				continue // not every target gets an addition
+			}
+			patch := map[string]any{"$match": map[string]any{"name": fmt.Sprintf("n%d", i)}}
+			patch["cfg"] = map[string]any{"tags": []any{fmt.Sprintf("add%d_%d", l, i)}}
+			id := fmt.Sprintf("L%d|doc%d", l, d)
+			add(wire.Op{Op: "MergeDocument", ID: id, Parents: append([]string{}, prev...), Data: &wire.Tree{V: patch}}, l)
+			ids = append(ids, id)
+		}
+		prev = ids
+	}
+	for l := 0; l <= nLayers; l++ {
+		c.Exts = append(c.Exts, r.Pick("yaml", "json", "yaml", "yml"))
+	}
+	return c
 }
